@@ -179,6 +179,9 @@ func simpleTypedValue(r *rand.Rand, d map[string]interface{}, wrong float64) int
 		elems := make([]interface{}, n)
 		for i := range elems {
 			elems[i] = simpleTypedValue(r, it, wrong)
+			if r.Intn(14) == 0 {
+				elems[i] = nil // a null element: of no type at all
+			}
 		}
 		// sometimes a typed slice ([]string, []int32, ...) instead of []interface{}
 		if n > 0 && r.Intn(2) == 0 {
@@ -189,7 +192,7 @@ func simpleTypedValue(r *rand.Rand, d map[string]interface{}, wrong float64) int
 					same = false
 				}
 			}
-			if same && t0.Kind() != reflect.Uint8 { // []uint8 is []byte: a base64 string for go-openapi, not an array of numbers
+			if same && t0 != nil && t0.Kind() != reflect.Uint8 { // []uint8 is []byte: a base64 string for go-openapi, not an array of numbers
 				sl := reflect.MakeSlice(reflect.SliceOf(t0), n, n)
 				for i, e := range elems {
 					sl.Index(i).Set(reflect.ValueOf(e))
